@@ -26,9 +26,10 @@ impl LowLevel {
 		LowLevel { methods: methods.into(), stop, handle, conn_id: Default::default(), guard: ConnectionGuard::new(10_000), cfg, duplex_capacity: 1 << 20 }
 	}
 
-	fn conn_state(&self) -> Option<ConnectionState> {
+	fn conn_state(&self) -> Option<(ConnectionState, u32)> {
 		let permit = self.guard.try_acquire()?;
-		Some(ConnectionState::new(self.stop.clone(), self.conn_id.fetch_add(1, Ordering::Relaxed), permit))
+		let id = self.conn_id.fetch_add(1, Ordering::Relaxed);
+		Some((ConnectionState::new(self.stop.clone(), id, permit), id))
 	}
 
 	/// Serve one connection.
@@ -40,9 +41,14 @@ impl LowLevel {
 		let svc = tower::service_fn(move |req: http::Request<hyper::body::Incoming>| {
 			let this = this.clone();
 			async move {
-				let Some(conn) = this.conn_state() else {
+				let Some((conn, id)) = this.conn_state() else {
 					return Ok::<_, Infallible>(jsonrpsee_server::http::response::too_many_requests());
 				};
+				// what the default server puts into the request extensions for its handlers (with the low-level API this is
+				// the assembler's job)
+				let mut req = req;
+				req.extensions_mut().insert(this.guard.clone());
+				req.extensions_mut().insert::<jsonrpsee_server::ConnectionId>(id.into());
 				if jsonrpsee_server::ws::is_upgrade_request(&req) {
 					match jsonrpsee_server::ws::connect(req, this.cfg.clone(), this.methods.clone(), conn, RpcServiceBuilder::new()).await {
 						Ok((rp, conn_fut)) => {
